@@ -8,7 +8,7 @@ import time
 
 VERIF = os.path.dirname(os.path.dirname(os.path.abspath(__file__)))
 REPO = os.environ.get("VERIF_REPO", "/repo")
-BUILD = os.path.join(VERIF, "build")
+BUILD = os.environ.get("VERIF_BUILD") or os.path.join(VERIF, "build")     # VERIF_BUILD: bin/seed_sweep builds a scratch worktree elsewhere
 GUARD = "CPPCMS_VERIF"
 
 COMMON_WARN = "-w"
